@@ -1,6 +1,6 @@
 (* Property C17 — A seed makes randomised functions reproducible.
-   This file contains only the pinned statements; proofs live in Proofs/LouvainOk.v.  The
-   statements are repeated in coq/pins/C17.v and re-checked on every run.
+   This file contains only the pinned statements; proofs live in Proofs/LouvainOk.v and
+   Proofs/LouvainOrdOk.v.  The statements are repeated in coq/pins/C17.v and re-checked on every run.
 
    In the model the only inputs of louvain_partitions are its arguments and the seed-derived
    shuffle table, so "equal inputs give equal outputs" is trivially true of a Gallina function.
@@ -8,11 +8,16 @@
    containers (re-keyed for every map, every call and every process); the theorems below state
    it for the three places where louvain.rs iterates such a container on a decision path, as
    repaired (F17): the candidate communities of a node, and the neighbour sets whose edge
-   weights are accumulated.  Across processes and rayon pool sizes the property is checked on
-   the implementation only (the property oracle), as is fast_gnp_random_graph (its model belongs
-   to C16). *)
-From Coq Require Import List Bool ZArith QArith Permutation.
-From GV Require Import Base.Outcome Base.AMap Model.GState Model.Louvain Proofs.LouvainOk.
+   weights are accumulated - and, round 2, for the WHOLE ALGORITHM: Model/LouvainOrd.v is the same
+   pipeline with the iteration order of every such container supplied by an arbitrary, stateful
+   oracle, and C17_louvain_partitions_hash_order_independent /
+   C17_louvain_communities_hash_order_independent say that the oracle cannot be observed in the
+   result (value, error, panic site or fuel exhaustion), for every graph state.  Across processes
+   and rayon pool sizes the property is checked on the implementation only (the property oracle),
+   as is fast_gnp_random_graph (its model belongs to C16). *)
+From Coq Require Import String List Bool ZArith QArith Permutation.
+From GV Require Import Base.Outcome Base.AMap Model.GState Model.Query Model.Louvain Model.LouvainOrd
+     Proofs.WFDefs Proofs.LouvainOk Proofs.LouvainGenGraphOk Proofs.LouvainOrdOk.
 Import ListNotations.
 
 (* the community chosen for a node does not depend on the order in which the HashMap of
@@ -43,3 +48,168 @@ Theorem C17_edge_order_canonical : forall l1 l2 : list ledge,
   Permutation l1 l2 -> NoDup (map (fun e => (eu e, ev e)) l1) ->
   sort_by edge_ltb l1 = sort_by edge_ltb l2.
 Proof. exact sort_edges_perm. Qed.
+
+(* ------------------------------------------------------------------------------------------ *)
+(* Round 2: the four local facts composed.  [h] is the order oracle of Model/LouvainOrd.v: at   *)
+(* every site where louvain.rs hands the elements of a HashMap / HashSet to order-sensitive    *)
+(* code, the iterator yields [fst (ho_* h o l)] for the container content [l] and the oracle   *)
+(* state moves on.  The ONLY assumption is that the yielded sequence is a permutation of the   *)
+(* content.  No hypothesis on the graph (coherent or not), the seed table, resolution,         *)
+(* threshold or the fuels; the three hypotheses on teqb / tltb are the framework's standing    *)
+(* ones on the name type.                                                                      *)
+(* ------------------------------------------------------------------------------------------ *)
+
+(* side condition of C17_best_com_order_independent, discharged: the keys of weights2com are
+   distinct whenever get_neighbor_weights / add_predecessor_weights return *)
+Theorem C17_weights2com_keys_distinct : forall (g : lgraph) u nbrs node2com towards acc0 r,
+  NoDup (map fst acc0) ->
+  neighbor_weights_into g u nbrs node2com towards acc0 = Ok r -> NoDup (map fst r).
+Proof. exact neighbor_weights_keys. Qed.
+
+(* side condition of C17_neighbor_weights_order_independent, removed: sorting naturals is
+   canonical with or without repetitions *)
+Theorem C17_sorted_neighbours_canonical : forall l1 l2 : list nat,
+  Permutation l1 l2 -> sort_by Nat.ltb l1 = sort_by Nat.ltb l2.
+Proof. exact sort_nat_perm_any. Qed.
+
+(* side condition of C17_edge_order_canonical, discharged on every working graph: the first one
+   is coherent and single-edge whatever the input state, generate_graph keeps that (C13) *)
+Theorem C17_working_graph_edge_keys_distinct : forall g : lgraph,
+  WF Nat.eqb Nat.ltb g -> multi (sp g) = false ->
+  NoDup (map (fun e : ledge => (eu e, ev e)) (get_all_edges g)).
+Proof. exact level_graph_keys. Qed.
+
+(* one local-moving phase (compute_one_level), any graph state *)
+Theorem C17_compute_one_level_hash_order_independent :
+  forall (OS : Type) (h : hash_oracle OS),
+    (forall o l, Permutation (fst (ho_cand h o l)) l) ->
+    (forall o l, Permutation (fst (ho_nbr h o l)) l) ->
+    (forall o l, Permutation (fst (ho_edge h o l)) l) ->
+    forall o fuel (g : lgraph) m partition res perms,
+      omap fst (compute_one_level_ord h o fuel g m partition res perms) =
+      compute_one_level fuel g m partition res perms.
+Proof. intros OS h H1 H2 H3. exact (compute_one_level_ord_eq h (mkOP OS h H1 H2 H3)). Qed.
+
+(* the aggregation step (generate_graph) on a coherent single-edge working graph *)
+Theorem C17_generate_graph_hash_order_independent :
+  forall (OS : Type) (h : hash_oracle OS),
+    (forall o l, Permutation (fst (ho_cand h o l)) l) ->
+    (forall o l, Permutation (fst (ho_nbr h o l)) l) ->
+    (forall o l, Permutation (fst (ho_edge h o l)) l) ->
+    forall o (g : lgraph) partition,
+      WF Nat.eqb Nat.ltb g -> multi (sp g) = false ->
+      omap fst (generate_graph_ord h o g partition) = generate_graph g partition.
+Proof.
+  intros OS h H1 H2 H3 o g partition W Hm.
+  exact (generate_graph_ord_eq h (mkOP OS h H1 H2 H3) o g partition (level_graph_keys g W Hm)).
+Qed.
+
+(* the whole algorithm *)
+Theorem C17_louvain_partitions_hash_order_independent :
+  forall (OS : Type) (h : hash_oracle OS),
+    (forall o l, Permutation (fst (ho_cand h o l)) l) ->
+    (forall o l, Permutation (fst (ho_nbr h o l)) l) ->
+    (forall o l, Permutation (fst (ho_edge h o l)) l) ->
+    forall (T A : Type) (teqb tltb : T -> T -> bool),
+      (forall x y, teqb x y = true <-> x = y) ->
+      (forall x y, tltb x y = true -> tltb y x = false) ->
+      (forall x y, tltb x y = false -> tltb y x = false -> x = y) ->
+      forall (o : OS) level_fuel sweep_fuel (g : gstate T A) weighted resolution thr perms,
+        louvain_partitions_ord h teqb tltb o level_fuel sweep_fuel g weighted resolution thr perms =
+        louvain_partitions teqb tltb level_fuel sweep_fuel g weighted resolution thr perms.
+Proof.
+  intros OS h H1 H2 H3 T A teqb tltb E1 E2 E3.
+  exact (louvain_partitions_ord_eq h (mkOP OS h H1 H2 H3) teqb tltb E1 E2 E3).
+Qed.
+
+Theorem C17_louvain_communities_hash_order_independent :
+  forall (OS : Type) (h : hash_oracle OS),
+    (forall o l, Permutation (fst (ho_cand h o l)) l) ->
+    (forall o l, Permutation (fst (ho_nbr h o l)) l) ->
+    (forall o l, Permutation (fst (ho_edge h o l)) l) ->
+    forall (T A : Type) (teqb tltb : T -> T -> bool),
+      (forall x y, teqb x y = true <-> x = y) ->
+      (forall x y, tltb x y = true -> tltb y x = false) ->
+      (forall x y, tltb x y = false -> tltb y x = false -> x = y) ->
+      forall (o : OS) level_fuel sweep_fuel (g : gstate T A) weighted resolution thr perms,
+        louvain_communities_ord h teqb tltb o level_fuel sweep_fuel g weighted resolution thr perms =
+        louvain_communities teqb tltb level_fuel sweep_fuel g weighted resolution thr perms.
+Proof.
+  intros OS h H1 H2 H3 T A teqb tltb E1 E2 E3.
+  exact (louvain_communities_ord_eq h (mkOP OS h H1 H2 H3) teqb tltb E1 E2 E3).
+Qed.
+
+(* ------------------------------------------------------------------------------------------ *)
+(* The content-only iteration sites (the elements only flow into another hash container; the   *)
+(* model keeps its list representation there and applies no oracle): locally, the CONTENT of   *)
+(* the produced container and the outcome class do not depend on the iteration order.  Not     *)
+(* composed into the whole-algorithm theorems (that needs "equal as sets of sets").            *)
+(* ------------------------------------------------------------------------------------------ *)
+
+(* compute_one_level: HashSet::difference / union *)
+Theorem C17_set_ops_content_only : forall a a' b b', same_set a a' -> same_set b b' ->
+  same_set (set_diff a b) (set_diff a' b') /\ same_set (set_union a b) (set_union a' b').
+Proof. exact set_ops_content_only. Qed.
+
+(* convert_usize_partitons_to_t: renaming one community *)
+Theorem C17_convert_back_community_order_free :
+  forall (T : Type) (rev_map : list (nat * T)) (hs hs' : list nat), Permutation hs hs' ->
+    outcome_rel (@Permutation T)
+      (omapM (fun u => unwrap_at "louvain.rs:reverse_node_map unwrap" (lookup Nat.eqb u rev_map)) hs)
+      (omapM (fun u => unwrap_at "louvain.rs:reverse_node_map unwrap" (lookup Nat.eqb u rev_map)) hs').
+Proof. exact (@convert_back_community_order_free). Qed.
+
+(* generate_graph: `for node in part` fills node2com (compared as a lookup function) and the
+   attribute set of the new node (compared by membership); [gg_inner] is the loop body *)
+Theorem C17_generate_graph_part_order_free : forall (g : lgraph), WF Nat.eqb Nat.ltb g ->
+  forall i part part' n2c, Permutation part part' ->
+    outcome_rel (fun r r' : list (nat * nat) * list nat =>
+                   (forall u, lookup Nat.eqb u (fst r) = lookup Nat.eqb u (fst r')) /\ same_set (snd r) (snd r'))
+                (ofold (gg_inner g i) part (n2c, [])) (ofold (gg_inner g i) part' (n2c, [])).
+Proof. exact generate_graph_part_order_free. Qed.
+
+(* non-vacuity: two oracles that satisfy the hypotheses and really permute - "iterate every table
+   backwards", and a stateful one, "the k-th iteration of the run starts at offset k" - on the
+   4-cycle and the 12-cycle (exact gain ties at every first visit): the three runs return the
+   same one resp. two non-trivial levels *)
+Theorem C17_hash_order_oracles_satisfy_hypotheses :
+  ((forall o l, Permutation (fst (ho_cand rev_oracle o l)) l) /\
+   (forall o l, Permutation (fst (ho_nbr rev_oracle o l)) l) /\
+   (forall o l, Permutation (fst (ho_edge rev_oracle o l)) l)) /\
+  ((forall o l, Permutation (fst (ho_cand rot_oracle o l)) l) /\
+   (forall o l, Permutation (fst (ho_nbr rot_oracle o l)) l) /\
+   (forall o l, Permutation (fst (ho_edge rot_oracle o l)) l)).
+Proof.
+  split; [destruct rev_oracle_perm as [a b c] | destruct rot_oracle_perm as [a b c]];
+    (split; [exact a | split; [exact b | exact c]]).
+Qed.
+
+Theorem C17_hash_order_nonvacuous :
+  fst (ho_cand rev_oracle tt [(1%nat, 1%Q); (3%nat, 1%Q)]) = [(3%nat, 1%Q); (1%nat, 1%Q)] /\
+  fst (ho_nbr rot_oracle 1%nat [1; 3; 5]%nat) = [3; 5; 1]%nat /\
+  match ord_ex_ring 4, ord_ex_ring 12 with
+  | Ok g4, Ok g12 =>
+    let expect4 := Ok [[[1; 0]; [3; 2]]]%Z in
+    let expect12 := Ok [[[1; 0]; [3; 2]; [5; 4]; [7; 6]; [9; 8]; [11; 10]];
+                        [[3; 2; 1; 0]; [7; 6; 5; 4]; [11; 10; 9; 8]]]%Z in
+    louvain_partitions Z.eqb Z.ltb 10 50 g4 false 1%Q (1 # 10000000)%Q (ord_ex_perms 4) = expect4 /\
+    louvain_partitions_ord rev_oracle Z.eqb Z.ltb tt 10 50 g4 false 1%Q (1 # 10000000)%Q (ord_ex_perms 4) = expect4 /\
+    louvain_partitions_ord rot_oracle Z.eqb Z.ltb 1%nat 10 50 g4 false 1%Q (1 # 10000000)%Q (ord_ex_perms 4) = expect4 /\
+    louvain_partitions Z.eqb Z.ltb 10 50 g12 false 1%Q (1 # 10000000)%Q (ord_ex_perms 12) = expect12 /\
+    louvain_partitions_ord rev_oracle Z.eqb Z.ltb tt 10 50 g12 false 1%Q (1 # 10000000)%Q (ord_ex_perms 12) = expect12 /\
+    louvain_partitions_ord rot_oracle Z.eqb Z.ltb 1%nat 10 50 g12 false 1%Q (1 # 10000000)%Q (ord_ex_perms 12) = expect12 /\
+    louvain_communities_ord rev_oracle Z.eqb Z.ltb tt 10 50 g12 false 1%Q (1 # 10000000)%Q (ord_ex_perms 12) =
+      Ok [[3; 2; 1; 0]; [7; 6; 5; 4]; [11; 10; 9; 8]]%Z
+  | _, _ => False
+  end.
+Proof. exact ord_oracles_nonvacuous. Qed.
+
+(* control: without the canonicalisation the order IS observable - the raw first-wins scan picks a
+   different community for two tied candidates arriving in the opposite order *)
+Theorem C17_raw_scan_is_order_sensitive :
+  let di := mkdi [] [] [] [] [] [2%Q; 2%Q; 2%Q; 2%Q] 2%Q 0%Q 0%Q in
+  let cands := [(1%nat, 1%Q); (3%nat, 1%Q)] in
+  (do r <- scan_candidates di 4%Q 1%Q false cands 0%nat 0%Q []; Ok (fst (fst r))) = Ok 1%nat /\
+  (do r <- scan_candidates di 4%Q 1%Q false (rev cands) 0%nat 0%Q []; Ok (fst (fst r))) = Ok 3%nat /\
+  update_best_com 0 cands di 4%Q 1%Q false = update_best_com 0 (rev cands) di 4%Q 1%Q false.
+Proof. exact ord_raw_scan_is_order_sensitive. Qed.
